@@ -1,9 +1,10 @@
 SPECIFICATION Spec
 CONSTANTS
-  Paths = {"a.mec", "index.mec", "sub/index.mec", "b.html"}
-  IndexNames = {"index.mec"}
-  HtmlPaths = {"b.html"}
+  Paths = {"a.mec", "index.mec", "sub/index.mec", "b.html", "index.html"}
+  IndexNames = {"index.mec", "index.html"}
+  HtmlPaths = {"b.html", "index.html"}
   Texts = {"T1", "T2"}
+  MecSibling <- SiblingDef
   ReloadLag = FALSE
   MaxLen = 4
   InitFs <- InitFsDef
